@@ -1,5 +1,5 @@
 (** C02: the hypotheses of the obligations are inhabited, and the model computes *)
-From OfxV Require Import Base.Prelude Base.SgmlBase Model.Sgml Model.SgmlSpec Proofs.SgmlNest Proofs.SgmlScan Proofs.SgmlFaithful Proofs.SgmlReject.
+From OfxV Require Import Base.Prelude Base.SgmlBase Model.Sgml Model.SgmlSpec Model.Serialize Proofs.SgmlNest Proofs.SgmlScan Proofs.SgmlFaithful Proofs.SgmlReject Proofs.SerializeProofs Gen.SgmlGen.
 Local Open Scope N_scope.
 Definition ex_doc : doc :=
   Agg (T "OFX") [Agg (T "SIGNONMSGSRSV1") [Agg (T "SONRS") [Agg (T "STATUS") [Leaf (T "CODE") (T "0"); Leaf (T "SEVERITY") (T "INFO")];
@@ -9,7 +9,17 @@ Definition ex_rend : rdoc :=
      [RLeaf (T "CODE") false [] (T "0") [] false [10]; RLeaf (T "SEVERITY") true [32] (T "INFO") [10] true [32; 32]] [];
      RLeaf (T "DTSERVER") false [32] (T "20051029101003") [32] true [10]; RAgg (T "FI") [10; 32] [] [12288];
      RLeaf (T "MEMO") false [] (T "AT&amp;T a>b ]]") [] false [10]] [10]] [10]] [133].
+Definition ex_tree : etree :=
+  Node (T "OFX") None [Node (T "STATUS") None [Node (T "CODE") (Some (T "0")) []; Node (T "MESSAGE") (Some (T "AT&T <ok>")) []];
+                       Node (T "FI") None []].
 Theorem examples_nonvacuous :
+  ser_ok html_empty ex_tree = true
+  /\ html_text html_empty (embed ex_tree) = T "<OFX><STATUS><CODE>0</CODE><MESSAGE>AT&amp;T &lt;ok&gt;</MESSAGE></STATUS><FI></FI></OFX>"
+  /\ parse repaired (html_text html_empty (indent 0 (embed ex_tree))) = OK (Some (tree_of (wire_doc ex_tree)))
+  /\ sgml_ok (wire_doc (Node (T "OFX") None [Node (T "CODE") (Some (T "0")) []])) = true
+  /\ unclosed_text true (indent 0 (embed (Node (T "OFX") None [Node (T "CODE") (Some (T "0")) []])))
+      = (T "<OFX>" ++ [10] ++ T "<CODE>0" ++ [10] ++ T "</OFX>" ++ [10])%list
+  /\
   wf_doc ex_doc = true /\ erase ex_rend = ex_doc /\ rend_ok ex_rend = true
   /\ parse repaired (render [10; 32] ex_rend) = OK (Some (tree_of ex_doc))
   /\ parse repaired (render [] (plain_rendering true ex_doc)) = OK (Some (tree_of ex_doc))
